@@ -412,6 +412,12 @@ def run_dom_op(world, st, aid, op):
         elif name in OBSERVERS:
             world.violate('C18.observer-mutates', '%s:%s' % (
                 name, field_class(d)), {'op': op, 'tree': k, 'path': d})
+        elif name == 'tweak' and op.get('how') == 'self' and \
+                res['outcome'] == 'ok':
+            # an attribute assigned the very value it holds: nothing changes
+            world.violate('C19.self-assignment-changes-tree', '%s:%s' % (
+                op.get('attr'), field_class(d)),
+                {'op': op, 'tree': k, 'path': d})
         elif res['outcome'] == 'raise' and name in (
                 'set', 'tweak', 'add_change', 'add_file', 'new_tree'):
             world.violate('C19.not-atomic', '%s:%s:%s' % (
